@@ -102,6 +102,13 @@ class Machine:
             if isinstance(base, Sym) and base.attrs is not None and \
                     e.attr in base.attrs:
                 return base.attrs[e.attr]
+            # a bound method of a container, used as a value
+            # (`key=sizes.get`)
+            for ty, names in self.METHODS.items():
+                if type(base) is ty and e.attr in names and e.attr in (
+                        'get', 'index', 'count', 'lower', 'upper',
+                        'strip', 'issubset', 'issuperset', 'isdisjoint'):
+                    return getattr(base, e.attr)
             if self.resolver is not None and hasattr(
                     self.resolver, 'chain'):
                 ch = au.chain(e)
@@ -520,7 +527,10 @@ class Machine:
             if e.func.id in self.SAFE:
                 try:
                     if 'key' in kw and isinstance(kw['key'], tuple):
-                        raise Unknown('key= closure')
+                        fkey = kw['key']
+                        kw = dict(kw)
+                        kw['key'] = lambda *a: self.apply_callable(
+                            fkey, list(a))
                     if e.func.id in ('list', 'tuple', 'enumerate', 'zip',
                                      'iter', 'reversed'):
                         args = [self.iterate(a) if isinstance(
